@@ -108,6 +108,10 @@ def c20_model(E):
     m = networks.build(tid)
     obj = networks.T[tid]["objectives"][-1]
     m.objective = {m.reactions.get_by_id(r): c for r, c in obj.items()}
+    if E.flag("two_boundary_reactions_on_one_metabolite"):
+        # e.g. a demand next to a sink / an exchange: each boundary reaction is listed on its own
+        met0 = m.metabolites.get_by_id("A")
+        m.add_boundary(met0, type="demand")
     sol, v = _sym_solution(E, m)
     boundary = sorted(r.id for r in m.reactions if r.boundary)
     use_fva = E.flag("fva_frame")
@@ -223,6 +227,47 @@ def c20_reaction(E):
     _render(E, s)
 
 
+def c20_fva_fraction(E):
+    """model.summary(fva=<fraction>): the ranges shown are the true FVA ranges at that fraction, scaled by the boundary
+    coefficient like the flux (min/max swapped for a negative coefficient) - also for a boundary reaction whose bounds are equal"""
+    from checks.c05 import oracle_set
+    env.for_path(E)
+    m = networks.build("T7")
+    which = E.pick("symbolic_reaction", ["EX_A", "DM_B"])
+    networks.symbolic_bounds(E, m, which=[which], delta=0.01)
+    obj = networks.T["T7"]["objectives"][0]
+    m.objective = {m.reactions.get_by_id(r): c for r, c in obj.items()}
+    fraction = E.pick("fva", [1.0, 0.5])
+    E.note(symbolic=which, fva=fraction)
+    status, opt, setp = oracle_set(E, m, obj, "max", fraction)
+    if status != "optimal":
+        return
+    lp, P = setp
+    try:
+        s = m.summary(fva=fraction)
+    except ZeroDivisionError:
+        return
+    except Exception as e:
+        E.prove(False, "summary-available-on-feasible-model", exc=type(e).__name__, msg=str(e)[:200])
+        return
+    rows = {row["reaction"]: row for t in (s.uptake_flux, s.secretion_flux) for _, row in t.iterrows()}
+    boundary = sorted(r.id for r in m.reactions if r.boundary)
+    E.prove(sorted(rows) == boundary, "every-boundary-reaction-exactly-once", listed=sorted(rows))
+    tol = rv(0) if E.symbolic else rv(1e-6)
+    for rid in boundary:
+        if rid not in rows:
+            continue
+        (met, coef), = m.reactions.get_by_id(rid).metabolites.items()
+        lo, hi = lift(rows[rid]["minimum"]), lift(rows[rid]["maximum"])
+        w = lp.fresh_point(E, "in_" + rid)
+        sc = w[rid] * rv(coef)
+        E.prove(z3.Implies(P(w), z3.And(sc >= lo - tol, sc <= hi + tol)), "fva-range-contains-every-scaled-flux", reaction=rid)
+        for end, val in (("minimum", lo), ("maximum", hi)):
+            a = lp.fresh_point(E, "att_%s_%s" % (rid, end))
+            E.prove_exists(list(a.values()), z3.And(P(a), a[rid] * rv(coef) - val <= tol + rv(TOL), val - a[rid] * rv(coef) <= tol + rv(TOL)),
+                           "fva-range-end-attained", reaction=rid, end=end)
+
+
 def c20_default_solution(E):
     """solution defaulted to pFBA: the summary describes the model as it stands *now* - also when the same model
     was summarised before and its stoichiometry (not its bounds or objective) was edited since"""
@@ -294,6 +339,10 @@ def _eqz(E, a, b):
 
 
 HARNESSES = [
+    H("c20_fva_fraction", c20_fva_fraction, quick=dict(max_paths=4000, time_budget=40), thorough=dict(max_paths=40000, time_budget=200),
+      witness_every=5,
+      bounds="T7, model.summary(fva=1.0 / 0.5) with the solution defaulted; one boundary reaction with symbolic bounds (equal bounds "
+             "included): shown ranges = oracle FVA ranges scaled by the boundary coefficient (sound and attained)"),
     H("c20_model", c20_model, quick=dict(max_paths=20000, time_budget=60, witnesses=60),
       thorough=dict(max_paths=300000, time_budget=300, witnesses=300), witness_every=2,
       bounds="T5 (exchanges in both directions, sink, demand) and T7 (non-unit, negative coefficients); all fluxes symbolic in "
